@@ -26,6 +26,7 @@ def finding_key(f, rec_panic=None):
     return '%s:%s:step%s' % (f['template'], f['kind'], f['step'])
 
 def select_templates(prop, tier):
+    if prop == 'C03': return list(catalog.MODEL) if tier == 'quick' else catalog.MODEL + catalog.MODEL_THOROUGH
     ts = catalog.QUICK if tier == 'quick' else catalog.QUICK + catalog.THOROUGH
     def is_rw(t): return any(op[0] in ('ematch', 'mmatch', 'rewrite') for op in t.ops)
     def is_ex(t): return any(op[0] == 'extract' for op in t.ops)
@@ -64,7 +65,7 @@ def run(prop, tier, seed=0, extra=None):
         if not n or 'steps' not in n: continue
         rec = results[(tn, ho)]['paths'][int(pi)]['records'][int(ri)]
         nrec = dict(n, pattern=rec['pattern'], values=rec['values'])
-        try: fs = judge.judge_record(tmap[tn], nrec)
+        try: fs = (judge.judge_model_record if getattr(tmap[tn], 'model', False) else judge.judge_record)(tmap[tn], nrec)
         except Exception: continue
         for kind, step, detail in fs:
             native_findings.append({'template': tn, 'hash_order': ho, 'path': int(pi), 'pattern': rec['pattern'], 'values': rec['values'], 'kind': kind,
@@ -104,10 +105,10 @@ def run(prop, tier, seed=0, extra=None):
         tmpl = tmap[f['template']]
         payload = {'property': prop, 'kind': 'template', 'template': tmpl.name, 'lang': tmpl.lang, 'analysis': tmpl.analysis, 'nnames': tmpl.nnames,
                    'ops': tmpl.ops, 'distinct': tmpl.distinct, 'values': f['values'], 'pattern': f['pattern'], 'finding': f, 'f0': F0_DEFAULT, 'named_max': NAMED_MAX,
-                   'history': tmpl.describe(), 'key': key, 'late': {str(k): v for k, v in (tmpl.late or {}).items()}, 'light': bool(getattr(tmpl, 'light', False))}
+                   'history': tmpl.describe(), 'key': key, 'late': {str(k): v for k, v in (tmpl.late or {}).items()}, 'light': bool(getattr(tmpl, 'light', False)), 'subst_method': getattr(tmpl, 'subst_method', None), 'model': bool(getattr(tmpl, 'model', False))}
         path = common.write_replay(prop, key, payload)
         violations[key] = (key, path, text)
-    if prop in ('C01', 'C02', 'C04', 'C05', 'C06', 'C08', 'C09', 'C13', 'C14', 'C15', 'C10'):   # kinds of judge.KIND_PROP
+    if prop in ('C03', 'C01', 'C02', 'C04', 'C05', 'C06', 'C08', 'C09', 'C13', 'C14', 'C15', 'C10'):   # kinds of judge.KIND_PROP
         for f in findings:
             if f['prop'] != prop and not (prop == 'C10' and f['kind'] in ('sym_extra', 'sym_missing', 'unsound_eq', 'missing_eq') and f['template'].startswith(('TH', 'TW', 'TORB', 'T4', 'B4', 'B5'))): continue
             rec = rec_index.get((f['template'], f['hash_order'], f['path'], tuple(f['pattern'])))
@@ -188,7 +189,8 @@ def run(prop, tier, seed=0, extra=None):
            'templates_not_covered': not_covered, 'mir_hash': next(iter(results.values())).get('mir_hash'), 'cache_hits': sum(1 for r in results.values() if r.get('cache_hit')),
            'known_findings_hit': sorted(known_hits), 'checks_feature_build': checks_build, 'exhaustive': False}
     assumptions = ['library models of mirsmt/models.py (containers as sequences / association lists; iteration order of hash containers = insertion order, also reversed%s)' % ('' if tier == 'quick' else ' and rotated'),
-                   'oracle: brute-force ground congruence closure over a pool of (#names + 3) names (mirsmt/oracle.py)',
+                   ('oracle: exhaustive evaluation of every dumped e-graph in the finite model GF(3) with summation and let binders (mirsmt/model_eval.py): every environment of every class, not a sample' if prop == 'C03' else
+                    'oracle: brute-force ground congruence closure over a pool of (#names + 3) names (mirsmt/oracle.py)'),
                    'every symbolic record was re-run natively on the real crate under the concrete names of its model and compared field by field',
                    'histories outside the listed template shapes are outside the claim']
     if extra:
@@ -239,13 +241,14 @@ def replay(prop, path):
     """re-runs a recorded counterexample natively (dev and release builds of the real crate) and judges it with the oracle"""
     from mirsmt.tmpl import Template
     p = json.load(open(path))
-    t = Template(p['template'], p['lang'], p['nnames'], [tuple(judge.tuple_term(o)) for o in p['ops']], p.get('analysis', '()'), p.get('distinct'), late={int(k): v for k, v in (p.get('late') or {}).items()} or None)
+    t = Template(p['template'], p['lang'], p['nnames'], [tuple(judge.tuple_term(o)) for o in p['ops']], p.get('analysis', '()'), p.get('distinct'), late={int(k): v for k, v in (p.get('late') or {}).items()} or None,
+                 subst_method=p.get('subst_method'), model=bool(p.get('model')))
     if p.get('light'): t.light = True
     ok = True
     for prof in ('release', 'dev'):
         out = native.run_cases(native.case_text('replay', t, p['values'], p.get('f0', F0_DEFAULT), p.get('named_max', NAMED_MAX)), prof)
         rec = out['replay']; rec['pattern'] = p['pattern']; rec['values'] = p['values']
-        fs = [f for f in judge.judge_record(t, rec) if judge.KIND_PROP.get(f[0]) == prop or prop in ('C11', 'C12')]
+        fs = [f for f in (judge.judge_model_record if t.model else judge.judge_record)(t, rec) if judge.KIND_PROP.get(f[0]) == prop or prop in ('C11', 'C12')]
         print('replay (%s build): %s names=%s -> %s' % (prof, t.describe(), p['values'], fs[:5] if fs else ('panic: ' + str(rec.get('panic')) if rec.get('panic') else 'no discrepancy with the oracle')))
         if not fs and not rec.get('panic'): ok = False
     return 1 if ok else 0
